@@ -125,7 +125,7 @@ func convertEvent(f *os.File, label, chain string, format int, text string, orig
 }
 
 func caseC13(r *rand.Rand, f *os.File, label string, maxTips int, cli *cliEnv) {
-	pal := &palette{vals: []float64{0.5, 1, 0.25, 2.75, 0.1, 1e-5, 12.5, 0.33, 100, 3, 0}}
+	pal := &palette{vals: []float64{0.5, 1, 0.25, 2.75, 0.1, 1e-5, 12.5, 0.33, 100, 3, 0, -0.75}}
 	k := 1 + r.Intn(6)
 	if r.Intn(12) == 0 {
 		k = 20 + r.Intn(30)
